@@ -19,6 +19,7 @@ type Env struct {
 	old     *Env
 	resolve func(name string) (*Term, bool)
 	resolveAddr func(name string) (*Term, bool) // &name: the reference of an address-taken local
+	params  map[string]bool // names in vars that are function parameters (may be shadowed by locals)
 	where   string
 }
 
@@ -175,6 +176,13 @@ func (e *Env) want(t *Term, s Sort, ctx string) {
 
 func (e *Env) lookup(name string) (*Term, bool) {
 	if t, ok := e.vars[name]; ok {
+		// a parameter may be shadowed by a local of the same name (e.g. `for _, stage := range ...`): the local wins
+		// where a resolver for locals is available
+		if e.params != nil && e.params[name] && e.resolve != nil {
+			if r, ok := e.resolve(name); ok {
+				return r, true
+			}
+		}
 		return t, true
 	}
 	if e.resolve != nil {
@@ -383,7 +391,21 @@ func (e *Env) call(x *ast.CallExpr) *Term {
 		if e.old == nil {
 			e.fail("old() not available here")
 		}
-		return e.old.tr(x.Args[0])
+		// old(e): the state components are those of the entry state; local names keep their current meaning
+		oe := *e.old
+		if e.old != e {
+			oe.vars = map[string]*Term{}
+			for k, v := range e.vars {
+				oe.vars[k] = v
+			}
+			for k, v := range e.old.vars {
+				oe.vars[k] = v
+			}
+			oe.resolve = e.resolve
+			oe.resolveAddr = e.resolveAddr
+		}
+		oe.where = e.where
+		return oe.tr(x.Args[0])
 	case "implies":
 		return Implies(e.trS(x.Args[0], SBool), e.trS(x.Args[1], SBool))
 	case "iff":
